@@ -68,6 +68,8 @@ type shareProgram struct {
 	window              bool
 	scenario            int // 0 readers only, 1 writers only, 2 mixed
 	fillSeed            uint64
+	fillMode            int  // 0 arbitrary bit patterns, 1 ordinary values, 2 all zero, 3 one constant, 4 runs of equal samples
+	nest                bool // views are obtained by slicing twice
 	tasks               []shareTask
 }
 
@@ -115,6 +117,8 @@ func drawShareProgram(prog *simrt.Stream, b Bounds) *shareProgram {
 	}
 	p.scenario = prog.Draw(3)
 	p.fillSeed = uint64(prog.Draw(1 << 30))
+	p.fillMode = prog.Draw(5)
+	p.nest = prog.Draw(3) == 2
 	// Tasks and their operations are nested units, each preceded by the draw
 	// that decides whether it exists (0 = stop). Frame ranges are handed out
 	// consecutively: a writer owns its segment; in mixed runs a reader is
@@ -199,7 +203,20 @@ func drawShareProgram(prog *simrt.Stream, b Bounds) *shareProgram {
 func buildShared[T signal.SignalTypes](p *shareProgram) (big, shared *signal.Buffer[T]) {
 	big = signal.Alloc[T](signal.Allocator{Channels: p.c, Length: p.bigFrames, Capacity: p.bigFrames})
 	for i := 0; i < big.Len(); i++ {
-		big.SetSample(i, arb[T](p.fillSeed+uint64(i)*7))
+		var v T
+		switch p.fillMode {
+		case 0:
+			v = arb[T](p.fillSeed + uint64(i)*7)
+		case 1:
+			v = nice[T](p.fillSeed + uint64(i)*977)
+		case 2:
+			// all zero
+		case 3:
+			v = nice[T](p.fillSeed)
+		default:
+			v = arb[T](p.fillSeed + uint64(i/5))
+		}
+		big.SetSample(i, v)
 	}
 	if p.window {
 		shared = big.Slice(p.winStart, p.winStart+p.frames)
@@ -305,11 +322,11 @@ func (h *H[T]) writerOp(d *uint64, parent, own, ro *signal.Buffer[T], op shareOp
 		if own.Len() == 0 {
 			return
 		}
-		own.SetSample(int(op.a)%own.Len(), arb[T](op.b))
+		own.SetSample(int(op.a)%own.Len(), pick[T](op.b))
 	case wWrite:
 		vals := make([]T, int(op.a)%(own.Len()+3))
 		for i := range vals {
-			vals[i] = arb[T](op.b + uint64(i))
+			vals[i] = pick[T](op.b + uint64(i))
 		}
 		mix64(d, uint64(signal.Write(vals, own)))
 	case wStriped:
@@ -321,7 +338,7 @@ func (h *H[T]) writerOp(d *uint64, parent, own, ro *signal.Buffer[T], op shareOp
 			}
 			src[chn] = make([]T, n)
 			for i := range src[chn] {
-				src[chn][i] = arb[T](op.c + uint64(chn*131+i))
+				src[chn][i] = pick[T](op.c + uint64(chn*131+i))
 			}
 		}
 		mix64(d, uint64(signal.WriteStriped(src, own)))
@@ -329,7 +346,7 @@ func (h *H[T]) writerOp(d *uint64, parent, own, ro *signal.Buffer[T], op shareOp
 		if own.Length() == 0 {
 			return
 		}
-		own.Channel(int(op.a)%c).SetSample(int(op.b)%own.Length(), arb[T](op.c))
+		own.Channel(int(op.a)%c).SetSample(int(op.b)%own.Length(), pick[T](op.c))
 	case wConv:
 		cv := h.convDst[int(op.a)%len(h.convDst)]
 		mix64(d, uint64(cv.f(own, int(op.b)%(own.Length()+2), op.c)))
@@ -381,7 +398,13 @@ func (h *H[T]) execShare(p *shareProgram, sim *simrt.Sim, label string) *shareRe
 			var ro *signal.Buffer[T]
 			if !pt.whole {
 				t.Yield(sWrSlice)
-				view = shared.Slice(pt.start, pt.end)
+				if p.nest && pt.start > 0 {
+					// the same window, reached through an intermediate (wider) view:
+					// creating a view reads headers only
+					view = shared.Slice(pt.start-1, p.frames).Slice(1, 1+pt.end-pt.start)
+				} else {
+					view = shared.Slice(pt.start, pt.end)
+				}
 				if pt.role == roleWriter && pt.roEnd > pt.roStart {
 					ro = shared.Slice(pt.roStart, pt.roEnd)
 				}
@@ -544,4 +567,12 @@ func (h *H[T]) C19(rc *runCtx) *Violation {
 			at, p.c, p.winStart)
 	}
 	return nil
+}
+
+// pick mixes arbitrary bit patterns and ordinary values.
+func pick[T signal.SignalTypes](k uint64) T {
+	if k%2 == 0 {
+		return nice[T](k / 2)
+	}
+	return arb[T](k / 2)
 }
